@@ -1,4 +1,4 @@
-SPECIFICATION TxGSpec
+SPECIFICATION PeerGSpec
 CONSTANTS
   Capacity = 1000000
   AnchorSize = 330
@@ -10,5 +10,5 @@ CONSTANTS
   MaxRbf = 7
   MaxPeer = 8
   MaxRatio = 3
-INVARIANTS TxDump
+INVARIANTS PeerDump
 CHECK_DEADLOCK FALSE
